@@ -44,6 +44,8 @@ def _get_true_interval_masks(boolean_vector, result):
     """C01/C03/C04: the result is, in order, the indicator vectors of all maximal True runs."""
     ghost(after="indices = np.cumsum(",
           do=lambda: run_counter_basic(boolean_vector, indices) and run_counter_separation(boolean_vector, indices))
+    ghost(after="unique_indices = sorted(", do=lambda: cut(forall(0, len(boolean_vector), lambda k: implies(
+        boolean_vector[k], exists(0, len(unique_indices), lambda r: unique_indices[r] == indices[k])))))
     ensures(forall(0, len(result), lambda r: is_maximal_run(boolean_vector, result[r])))
     # ordered and pairwise disjoint
     ensures(forall(0, len(result), lambda r: forall(r + 1, len(result), lambda s: forall(
